@@ -172,11 +172,20 @@ def er_le(a, b):
 # --------------------------------------------------------------------------------------------------
 # lemma instantiation for the uninterpreted functions
 # --------------------------------------------------------------------------------------------------
-def _collect_apps(fmls, decls):
+_UF_NAMES = ('SQ', 'SQRT', 'EXP')
+_APPS_CACHE = {}
+_LEM_CACHE = {}
+
+
+def _apps_of(f):
+    """uninterpreted SQ/SQRT/EXP applications inside one formula (cached per formula id)"""
+    k = f.get_id()
+    hit = _APPS_CACHE.get(k)
+    if hit is not None:
+        return hit[1]
+    out = {n: {} for n in _UF_NAMES}
     seen = set()
-    out = {d.name(): {} for d in decls}
-    names = set(out)
-    stack = list(fmls)
+    stack = [f]
     while stack:
         e = stack.pop()
         i = e.get_id()
@@ -184,11 +193,38 @@ def _collect_apps(fmls, decls):
             continue
         seen.add(i)
         if z3.is_app(e):
-            n = e.decl().name()
-            if n in names and e.num_args() == 1 and e.decl().kind() == z3.Z3_OP_UNINTERPRETED:
-                out[n][e.arg(0).get_id()] = e.arg(0)
+            if e.num_args() == 1 and e.decl().kind() == z3.Z3_OP_UNINTERPRETED:
+                n = e.decl().name()
+                if n in out:
+                    out[n][e.arg(0).get_id()] = e.arg(0)
             stack.extend(e.children())
+    if len(_APPS_CACHE) > 50000:
+        _APPS_CACHE.clear()
+    _APPS_CACHE[k] = (f, out)
     return out
+
+
+def _collect_apps(fmls, decls=None):
+    out = {n: {} for n in _UF_NAMES}
+    for f in fmls:
+        if isinstance(f, bool):
+            continue
+        a = _apps_of(f)
+        for n in _UF_NAMES:
+            if a[n]:
+                out[n].update(a[n])
+    return out
+
+
+def _cached(key, refs, build):
+    hit = _LEM_CACHE.get(key)
+    if hit is not None:
+        return hit[1]
+    val = build()
+    if len(_LEM_CACHE) > 300000:
+        _LEM_CACHE.clear()
+    _LEM_CACHE[key] = (refs, val)
+    return val
 
 
 _OPP = {}
@@ -207,58 +243,68 @@ def _opposite(s, t):
     return r[0]
 
 
+def _is_uf(t, name):
+    return z3.is_app(t) and t.decl().kind() == z3.Z3_OP_UNINTERPRETED and t.decl().name() == name
+
+
 def uf_lemmas(fmls, pairwise=True, pairwise_limit=400):
-    """True facts about SQ, SQRT, EXP for the argument terms occurring in `fmls` (quantifier free)."""
-    apps = _collect_apps(fmls, [SQ_F, SQRT_F, EXP_F])
+    """True facts about SQ, SQRT, EXP for the argument terms occurring in `fmls` (quantifier free, cached)."""
+    apps = _collect_apps(fmls)
     lem = []
     sq = list(apps['SQ'].values())
-    for t in sq:
-        lem.append(SQ_F(t) >= 0)
-        lem.append((SQ_F(t) == 0) == (t == 0))
-    for i in range(len(sq)):          # SQ(t) = SQ(-t) for syntactically opposite arguments
-        for j in range(i + 1, len(sq)):
-            if _opposite(sq[i], sq[j]):
-                lem.append(SQ_F(sq[i]) == SQ_F(sq[j]))
-    npairs = 0
-    for i in range(len(sq) if pairwise else 0):
-        for j in range(i + 1, len(sq)):
-            if npairs >= pairwise_limit:
-                break
-            s, t = sq[i], sq[j]
-            a, b = zabs(s), zabs(t)
-            lem.append(z3.Implies(a <= b, SQ_F(s) <= SQ_F(t)))
-            lem.append(z3.Implies(b <= a, SQ_F(t) <= SQ_F(s)))
-            npairs += 1
     sr = list(apps['SQRT'].values())
-    for t in sr:
-        lem.append(z3.Implies(t >= 0, SQRT_F(t) >= 0))
-        lem.append(z3.Implies(t >= 0, (SQRT_F(t) == 0) == (t == 0)))
-        if z3.is_app(t) and t.decl().kind() == z3.Z3_OP_UNINTERPRETED and t.decl().name() == 'SQ':
-            lem.append(SQRT_F(t) == zabs(t.arg(0)))
-    for i in range(len(sr) if pairwise else 0):
-        for j in range(i + 1, len(sr)):
-            s, t = sr[i], sr[j]
-            lem.append(z3.Implies(z3.And(s >= 0, t >= 0), (s <= t) == (SQRT_F(s) <= SQRT_F(t))))
+    ex = list(apps['EXP'].values())
+    for t in sq:
+        lem.extend(_cached(('sq1', t.get_id()), t, lambda: [SQ_F(t) >= 0, (SQ_F(t) == 0) == (t == 0)]))
+    for i in range(len(sq)):
+        for j in range(i + 1, len(sq)):
+            s_, t = sq[i], sq[j]
+            if _opposite(s_, t):
+                lem.append(SQ_F(s_) == SQ_F(t))
     if pairwise:
+        npairs = 0
+        for i in range(len(sq)):
+            for j in range(i + 1, len(sq)):
+                if npairs >= pairwise_limit:
+                    break
+                s_, t = sq[i], sq[j]
+
+                def mk(s_=s_, t=t):
+                    a, b = zabs(s_), zabs(t)
+                    return [z3.Implies(a <= b, SQ_F(s_) <= SQ_F(t)), z3.Implies(b <= a, SQ_F(t) <= SQ_F(s_))]
+                lem.extend(_cached(('sq2', s_.get_id(), t.get_id()), (s_, t), mk))
+                npairs += 1
+    for t in sr:
+        def mk1(t=t):
+            l = [z3.Implies(t >= 0, SQRT_F(t) >= 0), z3.Implies(t >= 0, (SQRT_F(t) == 0) == (t == 0))]
+            if _is_uf(t, 'SQ'):
+                l.append(SQRT_F(t) == zabs(t.arg(0)))
+            return l
+        lem.extend(_cached(('sr1', t.get_id()), t, mk1))
+    if pairwise:
+        for i in range(len(sr)):
+            for j in range(i + 1, len(sr)):
+                s_, t = sr[i], sr[j]
+                lem.extend(_cached(('sr2', s_.get_id(), t.get_id()), (s_, t),
+                                   lambda s_=s_, t=t: [z3.Implies(z3.And(s_ >= 0, t >= 0), (s_ <= t) == (SQRT_F(s_) <= SQRT_F(t)))]))
         for t in sr:            # cross facts: sqrt(t) <= |u|  <=>  t <= u^2
             for u in sq:
-                lem.append(z3.Implies(t >= 0, (t <= SQ_F(u)) == (SQRT_F(t) <= zabs(u))))
-                lem.append(z3.Implies(t >= 0, (t >= SQ_F(u)) == (SQRT_F(t) >= zabs(u))))
-    ex = list(apps['EXP'].values())
+                lem.extend(_cached(('x', t.get_id(), u.get_id()), (t, u), lambda t=t, u=u: [
+                    z3.Implies(t >= 0, (t <= SQ_F(u)) == (SQRT_F(t) <= zabs(u))),
+                    z3.Implies(t >= 0, (t >= SQ_F(u)) == (SQRT_F(t) >= zabs(u)))]))
     for t in ex:
-        lem.append(EXP_F(t) > 0)
-        lem.append((t == 0) == (EXP_F(t) == 1))
-        lem.append((t <= 0) == (EXP_F(t) <= 1))
-    for i in range(len(ex) if pairwise else 0):
-        for j in range(i + 1, len(ex)):
-            s, t = ex[i], ex[j]
-            lem.append((s <= t) == (EXP_F(s) <= EXP_F(t)))
+        lem.extend(_cached(('ex1', t.get_id()), t, lambda t=t: [EXP_F(t) > 0, (t == 0) == (EXP_F(t) == 1), (t <= 0) == (EXP_F(t) <= 1)]))
+    if pairwise:
+        for i in range(len(ex)):
+            for j in range(i + 1, len(ex)):
+                s_, t = ex[i], ex[j]
+                lem.extend(_cached(('ex2', s_.get_id(), t.get_id()), (s_, t), lambda s_=s_, t=t: [(s_ <= t) == (EXP_F(s_) <= EXP_F(t))]))
     return lem
 
 
 def exact_defs(fmls):
     """Exact (non-linear) definitions, used only to refine a `sat` answer obtained under the abstraction."""
-    apps = _collect_apps(fmls, [SQ_F, SQRT_F])
+    apps = _collect_apps(fmls)
     d = []
     for t in apps['SQ'].values():
         d.append(SQ_F(t) == t * t)
@@ -268,6 +314,19 @@ def exact_defs(fmls):
 
 
 # --------------------------------------------------------------------------------------------------
+def fast_add(solver, fmls):
+    """assert many formulas without the per-call overhead of Solver.add"""
+    ctx = solver.ctx.ref()
+    sv = solver.solver
+    f = z3.Z3_solver_assert
+    for a in fmls:
+        if isinstance(a, bool):
+            if not a:
+                f(ctx, sv, z3.BoolVal(False).as_ast())
+            continue
+        f(ctx, sv, a.as_ast())
+
+
 class Stats:
     FIELDS = ('queries', 'unsat', 'sat', 'unknown', 'paths', 'branch_queries', 'solver_s', 'nontrivial')
 
@@ -296,10 +355,10 @@ def decide(stats, facts, negated_claim, timeout_ms=None, lemmas=True, want_model
     stats.nontrivial += 1
     s = z3.Solver()
     s.set('timeout', timeout_ms or QUERY_TIMEOUT_MS)
-    s.add(*fm)
+    fast_add(s, fm)
     s.add(neg)
     if lemmas:
-        s.add(*uf_lemmas(fm + [neg], pairwise=(lemmas != 'unary')))
+        fast_add(s, uf_lemmas(fm + [neg], pairwise=(lemmas != 'unary')))
     t0 = time.time()
     r = s.check()
     stats.solver_s += time.time() - t0
